@@ -5,6 +5,7 @@ import (
 	"fmt"
 	"io"
 	"strings"
+	"sync"
 	"testing"
 
 	bip39 "github.com/islishude/bip39"
@@ -248,4 +249,108 @@ func TestC02_Random(t *testing.T) {
 		}
 		judgeH(rt, "c02.roundtrip", c02Check, c, l)
 	})
+}
+
+// c02.windows: a batch of entropies cut from one buffer (adjacent windows, cap > len), encoded by
+// several goroutines at once, each sentence validated. An encoder that writes behind the slice it
+// was given damages the neighbouring window while another goroutine is encoding it.
+type windowsCase struct {
+	Lang       string `json:"lang"`
+	Size       int    `json:"size"`
+	Windows    int    `json:"windows"`
+	Goroutines int    `json:"goroutines"`
+	Rounds     int    `json:"rounds"`
+	Seed       int    `json:"seed"`
+}
+
+var c02WindowsCheck = register("C02", "c02.windows", func(c *windowsCase) error {
+	l := mustLang(c.Lang)
+	for round := 0; round < c.Rounds; round++ {
+		buf := make([]byte, c.Size*c.Windows)
+		for i := range buf {
+			buf[i] = byte((i+round)*131 + i*i*7 + c.Seed*29 + i>>8)
+		}
+		pristine := append([]byte(nil), buf...)
+		out := make([]string, c.Windows)
+		errs := make([]error, c.Windows)
+		var wg sync.WaitGroup
+		start := make(chan struct{})
+		for g := 0; g < c.Goroutines; g++ {
+			wg.Add(1)
+			go func(g int) {
+				defer wg.Done()
+				<-start
+				for w := g; w < c.Windows; w += c.Goroutines {
+					m, err, p := implEncode(buf[w*c.Size:(w+1)*c.Size], implLang[l])
+					if p != nil {
+						err = p
+					}
+					out[w], errs[w] = m, err
+				}
+			}(g)
+		}
+		close(start)
+		wg.Wait()
+		sig := fmt.Sprintf("C02 roundtrip windows lang=%s size=%d", l, c.Size)
+		for w := range out {
+			if errs[w] != nil {
+				return failf(sig+" generate", "NewMnemonicByEntropy on window %d of a shared buffer: %v", w, errs[w])
+			}
+			if err := acceptBoth(sig, out[w], l, fmt.Sprintf("the output of NewMnemonicByEntropy for window %d (%x) of a buffer whose windows %d goroutines encode at once", w, pristine[w*c.Size:(w+1)*c.Size], c.Goroutines)); err != nil {
+				return err
+			}
+		}
+		if !bytes.Equal(buf, pristine) {
+			return failf(sig+" buffer", "encoding the %d-byte windows of one buffer changed the buffer", c.Size)
+		}
+	}
+	return nil
+})
+
+func TestC02_Windows(t *testing.T) {
+	cov.Rule(c02Rule + " || batches: the adjacent windows of one buffer (cap > len) encoded by 8 goroutines at once, every sentence validated")
+	for round := 0; round < pick(5, 40); round++ {
+		c := &windowsCase{Lang: ref.Lang(round % int(ref.NumLangs)).Name(), Size: ref.Sizes[round%5], Windows: 64, Goroutines: 8, Rounds: pick(60, 200), Seed: round}
+		cov.Eval(c.Windows * c.Rounds)
+		cov.Class("shared-buffer-windows")
+		cov.NonTrivial("c02.windows", []byte(fmt.Sprint(round, cfg.Tier)))
+		if round == 0 {
+			cov.Sample("c02.windows", c)
+		}
+		judge(t, "c02.windows", c02WindowsCheck, c)
+	}
+}
+
+// c02.fresh-sweep: in each of many freshly started processes every list word of every language is
+// generated into a sentence and validated. Whatever a process decides once at start-up (hash seeds,
+// map iteration order, address-space layout) is re-drawn per process: a table that is built
+// differently in one start out of a few hundred shows here.
+var c02FreshSweepCheck = register("C02", "c02.fresh-sweep", coldCheck("C02"))
+
+func TestC02_FreshSweep(t *testing.T) {
+	cov.Rule(c02Rule + " || fresh-process sweeps: in each of 400 (thorough 4000) newly started processes, for every language, 86 24-word sentences covering all 2048 list words are generated from entropy and validated (per-process randomness: hash seeds, map order)")
+	n := pick(400, 4000)
+	for k := 0; k < n; k++ {
+		if !mine(k) {
+			continue
+		}
+		var probe []op
+		for _, l := range allLangs() {
+			for base := 0; base < 2048; base += 24 {
+				prefix := make([]int, 23)
+				for i := range prefix {
+					prefix[i] = (base + (i+k)%24) % 2048
+				}
+				sol := ref.SolveLast(prefix)
+				e, _ := ref.Unpack(append(prefix, sol[(base+k)%len(sol)]))
+				probe = append(probe, op{Kind: "encode", Lang: int64(implLang[l]), Entropy: e})
+				probe = append(probe, op{Kind: "check", Lang: int64(implLang[l]), Text: text(ref.Encode(e, l))})
+			}
+		}
+		c := &coldCase{Probe: probe}
+		cov.Eval(len(probe))
+		cov.Class("fresh-process-word-sweep")
+		cov.NonTrivial("c02.fresh-sweep", []byte{byte(k), byte(k >> 8)})
+		judge(t, "c02.fresh-sweep", c02FreshSweepCheck, c)
+	}
 }
